@@ -1114,8 +1114,16 @@ fn skip_invalid_ruleset(text: &str) -> IResult<&str, ()> {
     }
 }
 
+/// `<!--` and `-->` between statements are ignored (the old idiom of wrapping
+/// the content of a style element in an HTML comment).
+fn parse_cdo_cdc(text: &str) -> IResult<&str, ()> {
+    let (rest, _) = tuple((skip_optional_whitespace, alt((tag("<!--"), tag("-->")))))(text)?;
+    Ok((rest, ()))
+}
+
 fn parse_statement(text: &str) -> IResult<&str, Option<RuleSet>> {
     alt((
+        map(parse_cdo_cdc, |_| None),
         map(parse_ruleset, Some),
         map(parse_at_rule, |_| None),
         map(skip_invalid_ruleset, |_| None),
